@@ -10,10 +10,14 @@ cargo test --workspace --no-fail-fast --offline > $D/suite_with.log 2>&1
 SUITE_FAILED=$(grep 'test result' $D/suite_with.log | awk '{f+=$6} END {print f+0}')
 SUITE_PASSED=$(grep 'test result' $D/suite_with.log | awk '{p+=$4} END {print p+0}')
 COMPILED=$(grep -c '^error' $D/suite_with.log)
-cp $D/demo.rs tests/seeded_demo.rs
-cargo test --offline --test seeded_demo > $D/demo_with.log 2>&1; DEMO_WITH=$?
-git checkout -q -- crates src 2>/dev/null; git checkout -q -- . ; cp $D/demo.rs tests/seeded_demo.rs
-cargo test --offline --test seeded_demo > $D/demo_without.log 2>&1; DEMO_WITHOUT=$?
-rm -f tests/seeded_demo.rs; git checkout -q -- .
+# where the demo lives: top-level tests/ by default; a README may ask for a sub-crate
+DEMO=tests/seeded_demo.rs; DEMOCMD="cargo test --offline --test seeded_demo"
+if grep -q 'crates/lib/tests/seeded_demo.rs' $D/README.md 2>/dev/null; then DEMO=crates/lib/tests/seeded_demo.rs; DEMOCMD="cargo test --offline -p liquid-lib --all-features --test seeded_demo"; fi
+if grep -q 'crates/core/tests/seeded_demo.rs' $D/README.md 2>/dev/null; then DEMO=crates/core/tests/seeded_demo.rs; DEMOCMD="cargo test --offline -p liquid-core --test seeded_demo"; fi
+mkdir -p $(dirname $DEMO); cp $D/demo.rs $DEMO
+$DEMOCMD > $D/demo_with.log 2>&1; DEMO_WITH=$?
+git checkout -q -- crates src 2>/dev/null; git checkout -q -- . ; mkdir -p $(dirname $DEMO); cp $D/demo.rs $DEMO
+$DEMOCMD > $D/demo_without.log 2>&1; DEMO_WITHOUT=$?
+rm -f $DEMO; rmdir crates/lib/tests crates/core/tests 2>/dev/null; git checkout -q -- .
 echo "{\"applies\": true, \"compile_errors\": $COMPILED, \"suite_passed\": $SUITE_PASSED, \"suite_failed\": $SUITE_FAILED, \"demo_exit_with_mutant\": $DEMO_WITH, \"demo_exit_without\": $DEMO_WITHOUT}" > $OUT
 cat $OUT
